@@ -283,12 +283,12 @@ package models
 // parsed URL in the cache. (*URL).String itself stays opaque, see the note at its contract.
 //@ func (*URL).String$1
 //@   property C09
-//@   requires [parsed] (*u) != nil && (*u).parsed != nil
-//@   let h0 = (*u).parsed.Host
-//@   let q0 = (*u).parsed.RawQuery
-//@   ensures [canonical-host] idna.toASCIIOk(h0) ==> (*u).parsed.Host == idna.toASCII(h0)
-//@   ensures [signed-untouched] isSignedHost(h0) ==> (*u).parsed.RawQuery == q0
-//@   ensures [cache] (*u).stringCache == url.urlText((*u).parsed.Scheme, (*u).parsed.Opaque, (*u).parsed.User, (*u).parsed.Host, (*u).parsed.Path, (*u).parsed.RawPath, (*u).parsed.OmitHost, (*u).parsed.ForceQuery, (*u).parsed.RawQuery, (*u).parsed.Fragment, (*u).parsed.RawFragment) // C09: the canonical string is URLToString of the parsed URL
+//@   requires [parsed] u != nil && u.parsed != nil
+//@   let h0 = u.parsed.Host
+//@   let q0 = u.parsed.RawQuery
+//@   ensures [canonical-host] idna.toASCIIOk(h0) ==> u.parsed.Host == idna.toASCII(h0)
+//@   ensures [signed-untouched] isSignedHost(h0) ==> u.parsed.RawQuery == q0
+//@   ensures [cache] u.stringCache == url.urlText(u.parsed.Scheme, u.parsed.Opaque, u.parsed.User, u.parsed.Host, u.parsed.Path, u.parsed.RawPath, u.parsed.OmitHost, u.parsed.ForceQuery, u.parsed.RawQuery, u.parsed.Fragment, u.parsed.RawFragment) // C09: the canonical string is URLToString of the parsed URL
 
 // ---------------------------------------------------------------------------------------
 // C08: helpers used by the seencheck functions (recursive tree walks, assumed here).
